@@ -254,18 +254,18 @@ func rangeIndexOver(idx ssa.Value, coll ssa.Value) bool {
 
 // audited index expressions: safe for a reason outside the function (cross-function length facts, library contracts).
 var auditedIndex = map[string]string{
-	"conversions.ConversionSupplySet.Payouts SortTxIDS()[0]": "top is non-empty when there is at least one request (the max loop appends at least the first maximum)",
-	"fat2.PTicker.UnmarshalJSON (parameter []byte #0)[0]": "encoding/json never hands an empty token to UnmarshalJSON; the slice is only indexed at 0",
-	"fat2.PTicker.String fat2.validPTickerStrings[expr]": "guarded by 0 < t < PTickerMax; the table has PTickerMax-1 entries (C20/ticker-table)",
-	"node.Pegnetd.ApplyFactoidBlock factom.FactoidTransaction.FCTInputs[0]": "a registered burn passed len(FCTInputs) == 1 and len(ECOutputs) == 1",
-	"node.Pegnetd.GetPegNetRateAverages$2 ratesOverPeriod[ratesOverPeriod.key][1:]": "the shift runs under len(x) >= AveragePeriod >= 1",
-	"node.Pegnetd.GetPegNetRateAverages$2 ratesOverPeriod[ratesOverPeriod.key][:expr]": "the shift runs under len(x) >= AveragePeriod >= 1",
-	"node.Pegnetd.SnapshotPayouts bal.Balances[i]": "bal.Balances has PTickerMax+1 slots (allocated in SelectSnapshotBalances), i < PTickerMax",
-	"node.Pegnetd.SnapshotPayouts$1 list[i]": "sort.Slice passes indices inside the slice it was given",
-	"node.Pegnetd.SnapshotPayouts$1 list[j]": "sort.Slice passes indices inside the slice it was given",
-	"node.Pegnetd.recordPegnetRequests fat2.TransactionBatch.Transactions[]": "TxIndex was recorded while enumerating the same batch's transactions",
-	"node.multiFetch$1 factom.EBlock.Entries[]": "indices are produced by ranging over the same Entries slice",
-	"pegnet.Pegnet.InsertFCTBurn factom.FactoidTransaction.FCTInputs[0]": "only called with registered burns (exactly one FCT input)",
+	"conversions.ConversionSupplySet.Payouts SortTxIDS()[0]":                                            "top is non-empty when there is at least one request (the max loop appends at least the first maximum)",
+	"fat2.PTicker.UnmarshalJSON (parameter []byte #0)[0]":                                               "encoding/json never hands an empty token to UnmarshalJSON; the slice is only indexed at 0",
+	"fat2.PTicker.String fat2.validPTickerStrings[expr]":                                                "guarded by 0 < t < PTickerMax; the table has PTickerMax-1 entries (C20/ticker-table)",
+	"node.Pegnetd.ApplyFactoidBlock factom.FactoidTransaction.FCTInputs[0]":                             "a registered burn passed len(FCTInputs) == 1 and len(ECOutputs) == 1",
+	"node.Pegnetd.GetPegNetRateAverages$2 ratesOverPeriod[ratesOverPeriod.key][1:]":                     "the shift runs under len(x) >= AveragePeriod >= 1",
+	"node.Pegnetd.GetPegNetRateAverages$2 ratesOverPeriod[ratesOverPeriod.key][:expr]":                  "the shift runs under len(x) >= AveragePeriod >= 1",
+	"node.Pegnetd.SnapshotPayouts bal.Balances[i]":                                                      "bal.Balances has PTickerMax+1 slots (allocated in SelectSnapshotBalances), i < PTickerMax",
+	"node.Pegnetd.SnapshotPayouts$1 list[i]":                                                            "sort.Slice passes indices inside the slice it was given",
+	"node.Pegnetd.SnapshotPayouts$1 list[j]":                                                            "sort.Slice passes indices inside the slice it was given",
+	"node.Pegnetd.recordPegnetRequests fat2.TransactionBatch.Transactions[]":                            "TxIndex was recorded while enumerating the same batch's transactions",
+	"node.multiFetch$1 factom.EBlock.Entries[]":                                                         "indices are produced by ranging over the same Entries slice",
+	"pegnet.Pegnet.InsertFCTBurn factom.FactoidTransaction.FCTInputs[0]":                                "only called with registered burns (exactly one FCT input)",
 	"pegnet.Pegnet.SetTransactionHistoryPEGConvertedRequestAmount fat2.TransactionBatch.Transactions[]": "index is the position recorded while enumerating the same batch",
 }
 
@@ -372,11 +372,11 @@ func propC08(c *Ctx, r *Report) {
 	// ---- panics: explicit panic, type assertions, divisions ----
 	r.rule("C08/panic-sites", 2, "explicit panics, unchecked assertions and data-dependent divisions on the block path")
 	auditedPanic := map[string]string{
-		"node.Pegnetd.GetPegNetRateAverages panic":   "database error while reading rates: the property assumes a healthy database (abort, I5)",
+		"node.Pegnetd.GetPegNetRateAverages panic":             "database error while reading rates: the property assumes a healthy database (abort, I5)",
 		"node.Pegnetd.ApplyTransactionBatchesInHolding assert": "GetPegNetRateAverages always returns map[fat2.PTicker]uint64",
-		"node.Pegnetd.GetPegNetRateAverages div":       "guarded: entries with fewer than AverageRequired samples are skipped, so len(v) > 0",
-		"node.Pegnetd.DBlockSync div":                  "iterations >= 1 after the increment above it",
-		"node.Pegnetd.RateAveragesAt assert":           "GetPegNetRateAverages always returns map[fat2.PTicker]uint64",
+		"node.Pegnetd.GetPegNetRateAverages div":               "guarded: entries with fewer than AverageRequired samples are skipped, so len(v) > 0",
+		"node.Pegnetd.DBlockSync div":                          "iterations >= 1 after the increment above it",
+		"node.Pegnetd.RateAveragesAt assert":                   "GetPegNetRateAverages always returns map[fat2.PTicker]uint64",
 	}
 	for _, f := range sortedFuncs(c.RSync) {
 		ordn := newOrdinals()
@@ -429,24 +429,24 @@ func propC08(c *Ctx, r *Report) {
 	// ---- wedges: unique-key inserts ----
 	r.rule("C08/unique-inserts", 10, "plain INSERTs into uniquely keyed tables on the block path")
 	auditedInsert := map[string]string{
-		"pegnet.Pegnet.InsertRates pn_rate":                            "as for insertRate (the same statement issued by InsertRates itself)",
-		"pegnet.Pegnet.insertRate pn_rate":                             "key (height, token): one call per asset name of the winning record, names unique in the graders' asset lists; height applied once (C02-R5)",
-		"pegnet.Pegnet.InsertGradeBlock pn_grade":                      "key height: a height is applied once (C02-R5)",
-		"pegnet.Pegnet.InsertGradeBlock pn_winners":                    "key (height, position): positions are assigned 1..n by the grader",
-		"pegnet.Pegnet.InsertBankAmount pn_bank":                          "key height: once per rated block",
-		"pegnet.Pegnet.markHeightSyncedVersion pn_sync_version":           "key height: must fail when a height is applied twice (C02-R5)",
-		"pegnet.Pegnet.InsertCoinbase pn_history_txbatch":              "key (winning OPR entry hash, height): the grader keeps one record per entry hash",
-		"pegnet.Pegnet.InsertCoinbase pn_history_transaction":          "key (winning OPR entry hash, 0)",
-		"pegnet.Pegnet.InsertStaking100Coinbase pn_history_txbatch":    "key (winning SPR entry hash, height)",
-		"pegnet.Pegnet.InsertStaking100Coinbase pn_history_transaction": "key (winning SPR entry hash, 0)",
-		"pegnet.Pegnet.InsertFCTBurn pn_history_txbatch":               "key (factoid transaction id, height): unique per factoid block",
-		"pegnet.Pegnet.InsertFCTBurn pn_history_transaction":           "key (factoid transaction id, 0)",
-		"pegnet.Pegnet.InsertStakingCoinbase pn_history_txbatch":       "mock txid = zero-padded height: one snapshot per height",
-		"pegnet.Pegnet.InsertStakingCoinbase pn_history_transaction":   "key (mock txid, list index): indices distinct",
-		"pegnet.Pegnet.InsertDeveloperRewardCoinbase pn_history_txbatch": "mock txid = developer ordinal + height",
+		"pegnet.Pegnet.InsertRates pn_rate":                                  "as for insertRate (the same statement issued by InsertRates itself)",
+		"pegnet.Pegnet.insertRate pn_rate":                                   "key (height, token): one call per asset name of the winning record, names unique in the graders' asset lists; height applied once (C02-R5)",
+		"pegnet.Pegnet.InsertGradeBlock pn_grade":                            "key height: a height is applied once (C02-R5)",
+		"pegnet.Pegnet.InsertGradeBlock pn_winners":                          "key (height, position): positions are assigned 1..n by the grader",
+		"pegnet.Pegnet.InsertBankAmount pn_bank":                             "key height: once per rated block",
+		"pegnet.Pegnet.markHeightSyncedVersion pn_sync_version":              "key height: must fail when a height is applied twice (C02-R5)",
+		"pegnet.Pegnet.InsertCoinbase pn_history_txbatch":                    "key (winning OPR entry hash, height): the grader keeps one record per entry hash",
+		"pegnet.Pegnet.InsertCoinbase pn_history_transaction":                "key (winning OPR entry hash, 0)",
+		"pegnet.Pegnet.InsertStaking100Coinbase pn_history_txbatch":          "key (winning SPR entry hash, height)",
+		"pegnet.Pegnet.InsertStaking100Coinbase pn_history_transaction":      "key (winning SPR entry hash, 0)",
+		"pegnet.Pegnet.InsertFCTBurn pn_history_txbatch":                     "key (factoid transaction id, height): unique per factoid block",
+		"pegnet.Pegnet.InsertFCTBurn pn_history_transaction":                 "key (factoid transaction id, 0)",
+		"pegnet.Pegnet.InsertStakingCoinbase pn_history_txbatch":             "mock txid = zero-padded height: one snapshot per height",
+		"pegnet.Pegnet.InsertStakingCoinbase pn_history_transaction":         "key (mock txid, list index): indices distinct",
+		"pegnet.Pegnet.InsertDeveloperRewardCoinbase pn_history_txbatch":     "mock txid = developer ordinal + height",
 		"pegnet.Pegnet.InsertDeveloperRewardCoinbase pn_history_transaction": "key (mock txid, ordinal mod 10): one row per mock txid",
-		"pegnet.Pegnet.InsertZeroingCoinbase pn_history_txbatch":       "one-time, height 260118 only: mock txids height-j; a collision with the staking txid of snapshot 260064 (j=54) is possible and its error is dropped by the caller (recorded under C10)",
-		"pegnet.Pegnet.InsertZeroingCoinbase pn_history_transaction":   "see above",
+		"pegnet.Pegnet.InsertZeroingCoinbase pn_history_txbatch":             "one-time, height 260118 only: mock txids height-j; a collision with the staking txid of snapshot 260064 (j=54) is possible and its error is dropped by the caller (recorded under C10)",
+		"pegnet.Pegnet.InsertZeroingCoinbase pn_history_transaction":         "see above",
 	}
 	ordn := newOrdinals()
 	for _, st := range cat.stmtsIn(c.RBlock) {
@@ -481,30 +481,30 @@ func propC08(c *Ctx, r *Report) {
 	// ---- wedges: error constructors ----
 	r.rule("C08/error-constructors", 15, "errors constructed on the block path are enumerated and audited")
 	auditedMsg := map[string]string{
-		"uncaught: %s":                             "KNOWN", // handled below as a finding
+		"uncaught: %s": "KNOWN", // handled below as a finding
 		"rates must exist if TransactionBatch contains conversions": "unreachable: immediate batches contain no conversion (HasConversions false => IsConversion false) and held batches run only with rates",
-		"txid already exists in the this set":      "txids are (index, entry hash) of distinct held entries / distinct list indices",
-		"undefined PEG phase":                      "phase is a constant 1..3 at every call site (C12 era table)",
-		"%s has balance that is not uint64: %s":    "sum of at most 61 int64 conversions of one address; needs > 2^64 pUSD-units of stake",
-		"trying to grade a non-opr chain":          "the eblock is looked up by config.OPRChain",
-		"trying to grade a non-spr chain":          "the eblock is looked up by config.SPRChain",
-		"SPR & OPR use different assets version":   "DROPPED: winners of one height are graded with versions of the same era; returned error is dropped by the errRate bug (C10 finding) so it cannot wedge",
-		"opr is out side of tolerance band":        "DROPPED: before 2.0.2 only; returned through errRate and dropped (C10 finding), so the block is committed without rates rather than wedged",
-		"opr is out side of spr's tolerance band":  "DROPPED: see above",
-		"no winners":                               "unreachable: called only when at least one winner list is non-empty",
-		"bank entry not added":                     "database anomaly (RowsAffected != 1), not chain content",
-		"bank entry not updated":                   "the row of this height is inserted by SyncBank earlier in the same block",
-		"invalid token type":                       "ticker values come from decoded (valid) tickers or loops over 1..62; the legacy second-pass exception is recorded under C04-R5",
-		"ht %d, pos %d :%s":                        "wraps a database error",
-		"integer overflow":                         "Convert: callers drop the batch silently in the checking loop (status stays pending: C17 finding); recordBatch re-runs the same Convert so it cannot fail there",
-		"invalid rate: 0":                          "Convert: same as above",
-		"invalid amount: must be greater than or equal to zero": "amounts are <= MaxInt64 by TransactionBatch.Validate",
+		"txid already exists in the this set":                       "txids are (index, entry hash) of distinct held entries / distinct list indices",
+		"undefined PEG phase":                                       "phase is a constant 1..3 at every call site (C12 era table)",
+		"%s has balance that is not uint64: %s":                     "sum of at most 61 int64 conversions of one address; needs > 2^64 pUSD-units of stake",
+		"trying to grade a non-opr chain":                           "the eblock is looked up by config.OPRChain",
+		"trying to grade a non-spr chain":                           "the eblock is looked up by config.SPRChain",
+		"SPR & OPR use different assets version":                    "DROPPED: winners of one height are graded with versions of the same era; returned error is dropped by the errRate bug (C10 finding) so it cannot wedge",
+		"opr is out side of tolerance band":                         "DROPPED: before 2.0.2 only; returned through errRate and dropped (C10 finding), so the block is committed without rates rather than wedged",
+		"opr is out side of spr's tolerance band":                   "DROPPED: see above",
+		"no winners":             "unreachable: called only when at least one winner list is non-empty",
+		"bank entry not added":   "database anomaly (RowsAffected != 1), not chain content",
+		"bank entry not updated": "the row of this height is inserted by SyncBank earlier in the same block",
+		"invalid token type":     "ticker values come from decoded (valid) tickers or loops over 1..62; the legacy second-pass exception is recorded under C04-R5",
+		"ht %d, pos %d :%s":      "wraps a database error",
+		"integer overflow":       "Convert: callers drop the batch silently in the checking loop (status stays pending: C17 finding); recordBatch re-runs the same Convert so it cannot fail there",
+		"invalid rate: 0":        "Convert: same as above",
+		"invalid amount: must be greater than or equal to zero":          "amounts are <= MaxInt64 by TransactionBatch.Validate",
 		"txid does not match txid format, format: [TxIndex]-[EntryHash]": "mock txids are generated in that format",
-		"index must be a valid integer":            "same",
-		"hash must be 32 bytes (64 hex characters)": "same",
-		"hash must be a valid hex string":          "mock txids are decimal digits, valid hex",
-		"createTables: %v":                         "start-up only",
-		"migrations: %v":                           "start-up only",
+		"index must be a valid integer":                                  "same",
+		"hash must be 32 bytes (64 hex characters)":                      "same",
+		"hash must be a valid hex string":                                "mock txids are decimal digits, valid hex",
+		"createTables: %v":                                               "start-up only",
+		"migrations: %v":                                                 "start-up only",
 	}
 	seen := map[string]bool{}
 	for _, f := range sortedFuncs(c.RBlock) {
@@ -519,7 +519,7 @@ func propC08(c *Ctx, r *Report) {
 				continue
 			}
 			msg := constant.StringVal(k.Value)
-			cons := fmt.Sprintf("%s: %q", fname(f), msg)
+			cons := fmt.Sprintf("%s: %q", strings.Join(c.ownerNames(f), "/"), msg) // keyed by the reference function the code belongs to
 			if seen[cons] {
 				continue
 			}
@@ -660,7 +660,7 @@ func convertVerdicts(c *Ctx, r *Report, rule string) {
 	}
 	dropped := map[string]bool{}
 	ef := &errflow{c: c}
-	for _, ci := range findCalls(atb, "conversions.Convert") {
+	for _, ci := range c.findCallsFam(atb, "conversions.Convert") {
 		ev, _ := errValueOf(ci)
 		if ev == nil {
 			continue
@@ -720,7 +720,7 @@ func convertVerdicts(c *Ctx, r *Report, rule string) {
 				continue
 			}
 			n++
-			cons := fmt.Sprintf("%s -> Convert %s (error propagated)", fname(f), ord(ordn.next("c")))
+			cons := fmt.Sprintf("%s -> Convert %s (error propagated)", strings.Join(c.ownerNames(f), "/"), ord(ordn.next("c")))
 			if fname(f) == "conversions.Refund" {
 				continue
 			}
@@ -1154,14 +1154,14 @@ func typePathOr(v ssa.Value) string {
 
 // audited sources: each is bounded by construction, not by a test the analysis can see; one reason per source.
 var u64Audited = map[string]string{
-	"converted int64: Convert()#0":                     "conversions.Convert returns a non-negative int64: its inputs are a validated non-negative amount and unsigned rates, and the result passed IsInt64",
-	"converted int64: Refund()":                        "conversions.Refund = input - Convert(yield back to the input asset); the yield never exceeds the floor-converted request, so the refund is in [0, input]",
-	"converted int64: Payout()":                        "grader payout table: compile-time constants of the grading module",
-	"element of Payouts()":                             "ConversionSupplySet.Payouts: each value is at most the request it was computed from (a converted int64)",
-	"factom.FactoidTransactionIO.Amount":               "factoid amounts come from an fblock validated by factomd; the whole FCT supply is far below 2^63 factoshis",
-	"element of payouts":                               "staking payouts: shares of the constant per-block staking reward",
-	"arithmetic: node.MintSupply.Amount * 100000000:uint64": "one-time mint table: compile-time amounts times 1e8, all far below 2^63",
-	"arithmetic: 2e+09:float64 * node.DevReward.DevRewardPct":                "developer reward: constant times a table percentage <= 1",
+	"converted int64: Convert()#0":                                          "conversions.Convert returns a non-negative int64: its inputs are a validated non-negative amount and unsigned rates, and the result passed IsInt64",
+	"converted int64: Refund()":                                             "conversions.Refund = input - Convert(yield back to the input asset); the yield never exceeds the floor-converted request, so the refund is in [0, input]",
+	"converted int64: Payout()":                                             "grader payout table: compile-time constants of the grading module",
+	"element of Payouts()":                                                  "ConversionSupplySet.Payouts: each value is at most the request it was computed from (a converted int64)",
+	"factom.FactoidTransactionIO.Amount":                                    "factoid amounts come from an fblock validated by factomd; the whole FCT supply is far below 2^63 factoshis",
+	"element of payouts":                                                    "staking payouts: shares of the constant per-block staking reward",
+	"arithmetic: node.MintSupply.Amount * 100000000:uint64":                 "one-time mint table: compile-time amounts times 1e8, all far below 2^63",
+	"arithmetic: 2e+09:float64 * node.DevReward.DevRewardPct":               "developer reward: constant times a table percentage <= 1",
 	"arithmetic: 2e+09:float64 * node.DevReward.DevRewardPct * 144:float64": "developer reward: constant times a table percentage <= 1 times the snapshot rate",
 }
 
